@@ -44,6 +44,12 @@ def generate(scratch):
         rows.append(f"  ({lean_prim(a)}, {i['kind']}, {i['width']}, {str(i['integral']).lower()}, {str(i['signed']).lower()}, {i['jsonKind']})")
     out.append(",\n".join(rows) + "]")
     out.append("")
+    import re
+    src = open(os.path.join(vlib.REPO, "tooling", "pkg", "packaging", "packageinfo.go")).read()
+    m = re.search(r"const MaxImportRecursionDepth\s*=\s*(\d+)", src)
+    out.append("/-- `packaging.MaxImportRecursionDepth` (constant in packageinfo.go). -/")
+    out.append(f"def maxImportDepth : Nat := {m.group(1) if m else 0}")
+    out.append("")
     out.append("end Yardl.Generated")
     with open(os.path.join(gen_dir, "Tables.lean"), "w") as f:
         f.write("\n".join(out) + "\n")
